@@ -265,14 +265,6 @@ def encodeFrom (text : List Byte) (prev : Element) : List Element := encodeFuel 
 /-- `terminalpp::encode(text)` = `operator""_ets` -/
 def encode (text : List Byte) : List Element := encodeFrom text {}
 
-/-- `to_string(string)`: the bytes of every element (`character_`, or the UTF-8 bytes up to the first 0) -/
-def glyphText (g : Glyph) : List Byte :=
-  if g.cs = .utf8 then
-    if g.b0 = 0 then [] else if g.b1 = 0 then [g.b0] else if g.b2 = 0 then [g.b0, g.b1] else [g.b0, g.b1, g.b2]
-  else [g.b0]
-
-def toStringBytes (es : List Element) : List Byte := es.flatMap (fun e => glyphText e.glyph)
-
 /-- `operator==(glyph, glyph)`: unused storage bytes are ignored for non-UTF-8 glyphs -/
 def glyphEq (a b : Glyph) : Bool :=
   a.cs == b.cs && (if a.cs = .utf8 then a.b0 == b.b0 && a.b1 == b.b1 && a.b2 == b.b2 else a.b0 == b.b0)
